@@ -132,8 +132,10 @@ async fn async_writer(req: &Value) -> R {
             Ok(json!({"sri":sri.to_string(),"written":total,"calls":calls}))
         }
         _ => {
+            pause_before_commit(req);
+            let cw0 = wall_ms();
             let sri = w.commit().await.map_err(|e| staged(err_json(&e), "commit"))?;
-            Ok(json!({"sri":sri.to_string(),"written":total,"calls":calls}))
+            Ok(json!({"sri":sri.to_string(),"written":total,"calls":calls,"commit_w0":cw0.to_string()}))
         }
     }
 }
